@@ -72,6 +72,29 @@ def _defs(path, names):
     return out
 
 
+def _tlapm(module, cwd, timeout=2400):
+    """tlapm in a session of its own: back-end provers that outlive their time-out (an SMT solver tlapm gave up on keeps running, with
+    gigabytes of memory) are killed with the whole group when tlapm is done"""
+    import signal
+
+    proc = subprocess.Popen(["tlapm", "--cleanfp", module + ".tla"], cwd=cwd, stdout=subprocess.PIPE, stderr=subprocess.STDOUT, text=True, start_new_session=True)
+    try:
+        out, _ = proc.communicate(timeout=timeout)
+    except subprocess.TimeoutExpired:
+        out = "tlapm timed out"
+    finally:
+        try:
+            os.killpg(proc.pid, signal.SIGKILL)
+        except ProcessLookupError:
+            pass
+        proc.wait()
+
+    class R:
+        stdout = out
+        returncode = proc.returncode
+    return R
+
+
 def prove(chk, module="ChunkProofs"):
     """-> number of proof obligations discharged; the definitions proved about must be those of the TLC-checked module"""
     ent = MODULES[module]
@@ -86,7 +109,7 @@ def prove(chk, module="ChunkProofs"):
         else:
             for dep in names:
                 shutil.copy(os.path.join(tlc.SPEC_DIR, dep + ".tla"), d)
-        p = subprocess.run(["tlapm", "--cleanfp", module + ".tla"], cwd=d, stdout=subprocess.PIPE, stderr=subprocess.STDOUT, text=True, timeout=2400)
+        p = _tlapm(module, d)
         if ref is None and "obligations proved" in p.stdout and len(ent) > 3:
             # the ASSUMEs of the proof module evaluated by TLC on a concrete instance; with the key assumption negated TLC must object
             mc, cfg, (good, bad) = ent[3], ent[4], ent[5]
